@@ -201,6 +201,13 @@ func genProxiedRequest(r *core.Rand, id, limit int) ReqSpec {
 	if sp.Proto == "http" && !sp.LateClose && r.Chance(1, 4) {
 		sp.Compress = true
 	}
+	// the server speaks first: a bidi backend that answers before it reads, and
+	// a client that sends its first message only once the first answer has
+	// reached it (a direct call to the backend goes like that)
+	if sp.Method == "bidi" && strings.HasPrefix(sp.Proto, "grpc") && sp.Fault.Kind == "" && !sp.LateClose && h.Code == 0 && len(sp.Msgs) >= 1 && len(h.Resps) >= 1 && r.Chance(1, 8) {
+		sp.ServerFirst = true
+		sp.Handler.Steps = []HStep{{Op: "sendall"}, {Op: "recvall"}}
+	}
 	// a second and third binary key
 	if r.Chance(1, 3) {
 		sp.MD = append(sp.MD, [2]string{"X-Second-Bin", binValue(r, patternBytes(r.U64(), 1+r.Intn(20)))})
